@@ -76,7 +76,7 @@ fn main() {
             let n: usize = args[4].parse().unwrap();
             match prop {
                 "C19" => c19::gen(seed, n, &mut out),
-                "C08" => c08::gen(seed, n, &mut out),
+                "C08" | "C09" => c08::gen(prop, seed, n, &mut out),
                 "C01" => c01::gen(seed, n, &mut out),
                 "C02" => c02::gen(seed, n, &mut out),
                 "C03" => c03::gen(seed, n, &mut out),
